@@ -17,7 +17,7 @@ FilesOf(e) == [k \in 1 .. Len(e.files) |-> FileOf(e.files[k])]
 (* one module: outcome allowed, accepted state faithful *)
 ModViol(cfg, e) ==
   IF e.out \notin Allowed(cfg)
-  THEN (IF e.out = "accepted" THEN "erroneous configuration accepted: " \o WhyRejected(cfg)
+  THEN (IF e.out = "accepted" THEN "bad config accepted: " \o WhyRejected(cfg)
         ELSE "healthy configuration rejected")
   ELSE IF e.out = "accepted" THEN StateViol(cfg, e.st) ELSE ""
 
@@ -31,24 +31,24 @@ Viol(e) ==
          ELSE IF created[e.m] # "no" THEN "module created twice"
          ELSE LET v == ModViol(cfgof[e.m], e) IN
               IF v # "" THEN v
-              ELSE IF e.out = "accepted" /\ e.orig # (origin[e.m] > 1) THEN "original_id marks modules merged from another file"
+              ELSE IF e.out = "accepted" /\ e.orig # (origin[e.m] > 1) THEN "original_id of merged modules"
               ELSE ""
     [] e.ev = "refuse" ->
-         IF ~AllCreated THEN "refused before all modules were tried (errors not reported together)"
+         IF ~AllCreated THEN "refused before all modules were tried"
          ELSE IF Rejected = {} THEN "node refused although no module failed"
          ELSE IF ToSet(e.reported) # Rejected THEN "all failing modules reported together"
          ELSE IF ToSet(e.registered) \cap Rejected # {} THEN "failing module registered"
          ELSE ""
     [] e.ev = "start" ->
          IF ~AllCreated THEN "module started before all modules were created"
-         ELSE IF Rejected # {} THEN "module started although the configuration is erroneous"
+         ELSE IF Rejected # {} THEN "module started although config is erroneous"
          ELSE IF e.m \in started THEN "module started twice" ELSE ""
     [] e.ev = "write" ->
          IF e.m \notin started THEN "hardware write before start"
          ELSE IF e.p \notin WriteSet(cfgof[e.m]) THEN "write of a value that was not configured"
          ELSE IF e.p \notin pending[e.m] THEN "configured value written twice"
          ELSE IF e.m \in polled THEN "configured value written after the first poll"
-         ELSE IF e.v # Exp(cfgof[e.m]).writes[e.p] THEN "value handed to write_<p> = configured value converted"
+         ELSE IF e.v # Exp(cfgof[e.m]).writes[e.p] THEN "value handed to write_<p> not the configured one"
          ELSE ""
     [] e.ev = "poll" ->
          IF e.m \notin started THEN "poll before start"
@@ -59,6 +59,7 @@ Viol(e) ==
          ELSE IF \E m \in Mods : pending[m] \ Refusable(m) # {} THEN "configured write lost"
          ELSE IF ToSet(e.registered) # Mods THEN "registered modules"
          ELSE ""
+    [] e.ev = "crash" -> "node start-up crashed instead of reporting errors"
     [] OTHER -> "harness: unknown event"
 
 Apply(e) ==
